@@ -930,7 +930,7 @@ def _setitem(x, a, rnd):
 
 
 # programs kept exactly as first generated because a known-finding contract names them by seed
-KNOWN_FINDING_SEEDS = {109919, 109436}
+KNOWN_FINDING_SEEDS = {109919, 109436, 137996, 158270, 89223}
 
 
 def generated_program(seed, depth=4):
@@ -971,14 +971,18 @@ def generated_program(seed, depth=4):
             continue
         if name == "prod" and a.size > 8:
             continue        # products of many elements overflow, and inf * 0 depends on the order
-        if name in ("var", "std") and a.dtype == np.float32 and a.size and float(np.max(np.abs(a))) > 100:
-            continue        # E[x^2] - E[x]^2 in float32 on large values cancels down to the rounding of the squares
+        if name in ("var", "std") and a.dtype.kind == "f" and a.size and float(np.nanmax(np.abs(a))) > (100 if a.dtype == np.float32 else 1e6):
+            continue        # E[x^2] - E[x]^2 on large values cancels down to the rounding of the squares
+        if name in ("cumprod", "cumprod-blelloch", "mul-self") and a.dtype.kind == "f" and a.size and not np.all(np.abs(a[np.isfinite(a)]) < 1e30):
+            continue        # chained products overflow; inf / nan then depend on the order of the multiplications
         if name in ("reshape-merge", "reshape-split", "ravel") and (windowed or taken) and seed not in KNOWN_FINDING_SEEDS:
             # a reshape of an array whose layout optimisation may change (the result of a native sliding-window reduction,
             # or of a take, whose advertised chunks are not stable) is known finding F52 (its own contract)
             continue
         if name == "take":
             taken = True
+        if name == "swv-sum" and taken and seed not in KNOWN_FINDING_SEEDS:
+            continue        # a sliding window over a take (advertised chunks not stable) is known finding F46 (own contract)
         if name == "swv-sum":
             # a sliding window over the result of a native sliding-window reduction is known finding F46 (its own contract,
             # sliding_window_view[over-a-layout-drifting-input]); generated programs take at most one
